@@ -12,9 +12,9 @@ from . import eqcommon as E
 
 PROP = "C17"
 RULE = ("every spec with <=5 atoms (6 for two-unit graphs) of all four universes, with attributes, descriptors crossing the cut, "
-        "placeholders and stereo changes x EVERY subset S given as list, tuple, set, frozenset, dict keys view and one-shot "
-        "generator: subgraph(S) == induced labelled subgraph of the reference model; connected_components() == union-find "
-        "partition; compose over every ordered pair of pieces (S1,S2) covering the atoms (3^n covers, overlaps allowed) and over "
+        "placeholders and stereo changes x EVERY subset S given as list, tuple, set, frozenset, dict keys view, one-shot "
+        "generator, and with repeated atoms (padded to exactly n entries, doubled, iterator with repeats): subgraph(S) == induced labelled subgraph of the reference model; connected_components() == union-find "
+        "partition; compose over every ordered pair of pieces (S1,S2) covering the atoms (3^n covers, overlaps allowed; the pieces themselves must come out unchanged) and over "
         "the component subgraphs in every order == labelled union (later wins) with coherent neighbour sets; composing the "
         "component subgraphs reproduces the graph; large graphs (a chain of n atoms with scrambled ids + ring + isolated atoms + a "
         "stereo/reaction unit, n around 127/128, 255/256, 300; thorough also 512, 1100): components, node components, compose of the "
@@ -194,6 +194,26 @@ def run_item(item):
                               f"induced subgraph", inc[0][1], inp=str(S))
                     if type(h) is not type(g):
                         V(f"subgraph/{cname}/class", f"subgraph returned a {type(h).__name__}", inp=str(S))
+        # S may name an atom more than once (a list built by walking bonds): padded to exactly n entries, doubled, and a
+        # one-shot iterator over a list with repeats
+        for k in range(1, n):
+            for S in itertools.combinations(ids, k):
+                exp = m.subgraph(S).observe()
+                pad = (list(S) * (n // k + 1))[:n]
+                for cname, arg in (("list-padded-to-n", pad), ("tuple-doubled", tuple(S) + tuple(reversed(S))), ("iter-with-repeats", iter(pad + list(S)))):
+                    try:
+                        h = g.subgraph(arg)
+                    except Exception as e:
+                        V(f"subgraph/{cname}/raised:{type(e).__name__}", f"subgraph({cname} of {S}) raised {e!r}", inp=str(S))
+                        continue
+                    out["evals"] += 1
+                    out["distinct"] += 1
+                    oc["subgraph-" + cname] = oc.get("subgraph-" + cname, 0) + 1
+                    got = norm(snap(h), drop_empty_changes=True)
+                    d = diff(got, exp)
+                    if d:
+                        V(f"subgraph/{cname}/wrong:" + "+".join(d), f"subgraph({cname} of {S}) differs from the induced subgraph in {d}",
+                          {x: {"real": got.get(x), "model": exp.get(x)} for x in d}, inp=str(S))
         if norm(snap(g)) != base:
             V("subgraph/modified-source", "subgraph() modified the source graph")
         # ---- components --------------------------------------------------------------------------------
@@ -245,8 +265,14 @@ def run_item(item):
                     p2 = g.subgraph(S2)
                     for a in S2:
                         p2.set_atom_attribute(a, "z", 5)
+                    before1, before2 = norm(snap(p1)), norm(snap(p2))
                     for container in (list, tuple):
                         h = type(g).compose(container([p1, p2]))
+                        if norm(snap(p1)) != before1 or norm(snap(p2)) != before2:
+                            which = "first" if norm(snap(p1)) != before1 else "second"
+                            V("compose-cover/modified-piece", f"compose([sub{S1}, sub{S2}]) changed its {which} argument in "
+                              f"{diff(norm(snap(p1)), before1) or diff(norm(snap(p2)), before2)}", inp=str(assign))
+                            before1, before2 = norm(snap(p1)), norm(snap(p2))
                         out["evals"] += 1
                         out["distinct"] += 1
                         oc["compose-cover"] = oc.get("compose-cover", 0) + 1
